@@ -366,6 +366,23 @@ static void check_plu(Tape &t, Ctx &cx, unsigned n)
         a_real_plu_solve(n, A.p, p, bb.p, x.p);
         if (finite_all(x.p, n)) { resid(x.p, b, "plu:solve_residual", "plu_solve", 1); }
         else { ++cx.rep->excluded; }
+        if (n <= 12)
+        {
+            // factors, permutation and right-hand side are const inputs of the solve and of both inverses: from read-only memory
+            // they have to give the same bits
+            RoBlock rA(A.p, sizeof(R) * n * n, sizeof(R)), rp(p, sizeof(a_uint) * n, sizeof(a_uint)), rb(bb.p, sizeof(R) * n, sizeof(R));
+            if (rA.p && rp.p && rb.p)
+            {
+                Blk x2(n), I3(size_t(n) * n), I4(size_t(n) * n), tmp2(n), I5(size_t(n) * n), I6(size_t(n) * n), tmp3(n);
+                a_real_plu_solve(n, (R const *)rA.p, (a_uint const *)rp.p, (R const *)rb.p, x2.p);
+                for (unsigned i = 0; i < n; ++i) { VP_CHECK(cx, same_bits(x2.p[i], x.p[i]), "plu:readonly_input_differs", "plu_solve on read-only inputs differs at component %u", i); }
+                a_real_plu_inv(n, (R const *)rA.p, (a_uint const *)rp.p, tmp2.p, I3.p);
+                a_real_plu_inv(n, A.p, p, tmp3.p, I5.p);
+                a_real_plu_inv_(n, (R const *)rA.p, (a_uint const *)rp.p, I4.p);
+                a_real_plu_inv_(n, A.p, p, I6.p);
+                for (size_t i = 0; i < size_t(n) * n; ++i) { VP_CHECK(cx, same_bits(I3.p[i], I5.p[i]) && same_bits(I4.p[i], I6.p[i]), "plu:readonly_input_differs", "plu_inv / plu_inv_ on read-only factors differ at cell %zu", i); }
+            }
+        }
         {
             unsigned j = t.u8() % n;
             Blk Mx(size_t(n) * n);
@@ -689,6 +706,25 @@ static void check_sym(Tape &t, Ctx &cx, unsigned n, int kind)
         kind ? a_real_llt_solve(n, A.p, x.p) : a_real_ldl_solve(n, A.p, x.p);
         if (finite_all(x.p, n)) { resid(x.p, b, kind ? "llt:solve_residual" : "ldl:solve_residual", kind ? "llt_solve" : "ldl_solve", 1); }
         else { ++cx.rep->excluded; }
+        if (n <= 12)
+        {
+            // the factor is a const input of solve / inv / inv_ / det: read-only memory, same bits
+            RoBlock rA(A.p, sizeof(R) * n * n, sizeof(R));
+            if (rA.p)
+            {
+                R const *Ar = (R const *)rA.p;
+                Blk x2(n), I3(size_t(n) * n), I5(size_t(n) * n), t2(n), t3(n);
+                memcpy(x2.p, b.data(), sizeof(R) * n);
+                kind ? a_real_llt_solve(n, Ar, x2.p) : a_real_ldl_solve(n, Ar, x2.p);
+                for (unsigned i = 0; i < n; ++i) { VP_CHECK(cx, same_bits(x2.p[i], x.p[i]), kind ? "llt:readonly_input_differs" : "ldl:readonly_input_differs", "%s_solve on a read-only factor differs at component %u", nm, i); }
+                if (kind) { a_real_llt_inv(n, Ar, t2.p, I3.p); a_real_llt_inv(n, A.p, t3.p, I5.p); }
+                else { a_real_ldl_inv(n, Ar, t2.p, I3.p); a_real_ldl_inv(n, A.p, t3.p, I5.p); }
+                for (size_t i = 0; i < size_t(n) * n; ++i) { VP_CHECK(cx, same_bits(I3.p[i], I5.p[i]), kind ? "llt:readonly_input_differs" : "ldl:readonly_input_differs", "%s_inv on a read-only factor differs at cell %zu", nm, i); }
+                R d1 = kind ? a_real_llt_det(n, Ar) : a_real_ldl_det(n, Ar), d2 = kind ? a_real_llt_det(n, A.p) : a_real_ldl_det(n, A.p);
+                R l1 = kind ? a_real_llt_lndet(n, Ar) : a_real_ldl_lndet(n, Ar), l2 = kind ? a_real_llt_lndet(n, A.p) : a_real_ldl_lndet(n, A.p);
+                VP_CHECK(cx, same_bits(d1, d2) && same_bits(l1, l2), kind ? "llt:readonly_input_differs" : "ldl:readonly_input_differs", "%s_det / lndet on a read-only factor differ", nm);
+            }
+        }
         // the strided forms solve in place on one column of an n x n block and leave the other columns alone
         {
             unsigned j = t.u8() % n;
